@@ -113,6 +113,9 @@ def _judge(fn, call, in_unit, out_unit):
         v1, v2 = sp.unit(a[0], a[1]), sp.unit(a[2], a[3])
     else:
         v1, v2 = sp.unit_rad(a[0], a[1]), sp.unit_rad(a[2], a[3])
+    if v1.shape != v2.shape:
+        n = max(v1.shape[1], v2.shape[1])
+        v1, v2 = np.broadcast_to(v1, (3, n)), np.broadcast_to(v2, (3, n))
     true = sp.sep_vec(v1, v2)
     got = np.atleast_1d(np.asarray(call.result, dtype="f8"))
     if got.shape != true.shape:
@@ -127,7 +130,7 @@ def _judge(fn, call, in_unit, out_unit):
         key = None
         if fn == "sphdist" and true.size == 3 and float(true.max()) > 174:
             key = "sphdist/beyond-174deg-mask-on-component-axis"
-        wit["pair"] = [float(np.atleast_1d(np.asarray(x, dtype="f8"))[i]) for x in a]
+        wit["pair"] = [float(np.broadcast_to(np.atleast_1d(np.asarray(x, dtype="f8")), true.shape)[i]) for x in a]
         COL.violation(mon, "%s = %r deg, true separation %r deg (error %.3g > %g) [%s]" % (
             fn, float(gd[i]), float(true[i]), float(err[i]), TOL[fn], fam), wit, key=key)
         return
@@ -199,6 +202,17 @@ def run_case(case):
             if e is None:
                 _rel("scalar-vs-array", abs(float(np.atleast_1d(dsc)[0]) - float(d[i])) <= 1e-13 + (0 if fn == "sphdist" else 2e-6),
                      "%s scalar call %r differs from array element %r" % (fn, dsc, d[i]), wit)
+    # one scalar point against an array of points (broadcast), e.g. distances from a centre
+    if form in ("len3", "long"):
+        i = int(rng.integers(0, ra1.size))
+        db, e = probe.attempt(co.sphdist, float(ra1[i]), float(dec1[i]), ra2, dec2)
+        if e is None:
+            ref = sp.sep(np.full(ra2.size, ra1[i]), np.full(ra2.size, dec1[i]), ra2, dec2)
+            _rel("broadcast", np.shape(db) == ra2.shape and np.all(np.abs(np.asarray(db, dtype=LD) - ref) <= 1e-11),
+                 "sphdist(scalar point, array of points) differs from the pairwise separations", wit)
+        else:
+            COL.violation("C08.relations", "sphdist(scalar point, array of points) raised %s: %s" % (type(e).__name__, str(e)[:120]), wit,
+                          key="sphdist/broadcast-near-antipodal-raises" if isinstance(e, IndexError) else None)
     # unit options of sphdist
     if form != "list":
         r = [np.radians(a) for a in args]
